@@ -10,19 +10,19 @@ CLAIMED = {
     "C01": ("exploration",
             "Seeded search over registration histories, node behaviours, cancellation points and goroutine schedules of the Send fan-out; "
             "every run's node invocations are matched against the traversals a sequential reference model predicts (exact multiset when not "
-            "cancelled, union of chain prefixes when cancelled). A second scenario BUILDS the registry from concurrent tasks (registrations of fresh ids, threshold setters/getters on types first touched in that phase) and Sends after they all returned. Histories re-bind node ids to new node objects and re-register pipelines with their own node list. Evidence, not proof: schedules are sampled.",
+            "cancelled, union of chain prefixes when cancelled). A second scenario BUILDS the registry from concurrent tasks (registrations of fresh ids, threshold setters/getters on types first touched in that phase) and Sends after they all returned. Histories re-bind node ids to new node objects and re-register pipelines with their own node list; ids carry white space; callers reuse the slices they passed; in a rendezvous scenario the formatters of the pipelines wait for one another. Evidence, not proof: schedules are sampled.",
             "Atomicity between instrumented yield points; recording nodes supplied by the harness; registry static during the Sends (registration "
             "concurrent WITH a Send is C04/C07).",
             "deterministic simulation: seeded scheduler over instrumented goroutines/select/sync.Map + reference-model oracle", "4 C01"),
     "C02": ("exploration",
             "Same simulated fan-out with thresholds 0..n+1, shared sink ids, distinct error values and a canceller task placed by the scheduler at "
             "any step; Status and error are compared with what the recorded traversals allow (exact when not cancelled, sub-multiset when cancelled; "
-            "error iff a threshold is missed; context error wrapped when the dispatch ended early, also for contexts ended with a cause); node errors come in several dynamic types (aggregates, typed nil pointers, joined errors) and warnings are matched by identity. Some runs add tasks that set the thresholds concurrently (also on an event type first touched during the run): the verdict must match one of the thresholds that could be in force.",
+            "error iff a threshold is missed; context error wrapped when the dispatch ended early, also for contexts ended with a cause); node errors come in several dynamic types (aggregates, typed nil pointers, joined errors, errors wrapping a context error) and warnings are matched by identity; a node may cancel its own Send's context. Some runs add tasks that set the thresholds concurrently (also on an event type first touched during the run): the verdict must match one of the thresholds that could be in force.",
             "Sends to an event type the Broker has never been told about are outside the iff-clause (documented error).",
             "deterministic simulation: seeded scheduler + cancellation fault at every protocol step + model oracle", "4 C02"),
     "C03": ("exploration",
             "Bounded liveness by simulation: cancellation before/at any step/never, node bodies stalled by the simulator; Send must return once its "
-            "context is done while nodes are frozen (histories include refused removals: a lock left held is reported with its site), every run must drain to zero tasks (goroutine accounting is exact because every `go` goes "
+            "context is done while nodes are frozen (histories include refused removals: a lock left held is reported with its site; thresholds are set; nodes may cancel their own Send), every run must drain to zero tasks (goroutine accounting is exact because every `go` goes "
             "through the simulator), no panic, no deadlock. Some runs add nodes that call Send from Process and a task that re-sets the thresholds "
             "to their current values (lock traffic around the dispatch).",
             "A goroutine blocked for ever is detected as: no task schedulable, fake clock advanced by 72h, task still blocked.",
@@ -31,7 +31,7 @@ CLAIMED = {
             "2-8 client tasks run generated histories of every Broker call over a small id space while others Send. (a) the race binary runs the "
             "same seeds: the simulator hides its own synchronisation from the race detector, so any report is a race of the library under a fully "
             "controlled schedule; (b) the plain binary records invoke/return stamps and checks the history (registry calls, getters, one read per "
-            "pipeline key and Send, plus a sequential probe suffix) for linearizability against a sequential registry model with porcupine.",
+            "pipeline key and Send, plus a sequential probe suffix) for linearizability against a sequential registry model with porcupine. Node registrations may be DenyOverwrite; some nodes nest a Send.",
             "porcupine Unknown (timeout) is counted, never reported; histories are kept short (<= 22 calls).",
             "deterministic simulation: seeded scheduler + race detector under serialised schedules + porcupine linearizability", "4 C04"),
     "C05": ("exploration",
@@ -46,26 +46,26 @@ CLAIMED = {
             "RemoveNode} on 2 types x 3 pipeline ids x 4 node ids with Close faults; after every call the outcome and the Close counts of every node "
             "object are compared with a model in which 'in use' means 'listed by a registered pipeline'; at the end every id is probed on a replayed copy. "
             "Nodes are sometimes registered behind one or two NodeUnwrapper wrappers. In addition every call sequence up to length 4 (quick) / 5 "
-            "(thorough) over a reduced alphabet of 10 calls is executed (11 110 / 111 110 histories). A concurrent scenario lets 2-4 tasks remove / overwrite pipelines that share nodes (and remove nodes) at once; after they returned a probe Send shows what is still listed and exactly those ids must be refused by RemoveNode, all others removable or gone, each closed once.",
+            "(thorough) over a reduced alphabet of 10 calls is executed (11 110 / 111 110 histories). A concurrent scenario lets 2-4 tasks remove / overwrite pipelines that share nodes (and remove nodes) at once; after they returned a probe Send shows what is still listed and exactly those ids must be refused by RemoveNode, all others removable or gone, each closed once. Removals are also made with a cancelled context; node-id slices are reused by the caller.",
             "The statement's depth-7 exhaustive enumeration is only approached (depth 4/5 over a reduced alphabet); beyond that histories are sampled.",
             "deterministic simulation: seeded call histories + Close fault injection + reference model", "4 C06"),
     "C07": ("exploration",
             "Policy sequences (allow/deny/default/invalid) interleaved with removals against the model, probe Sends after calls; concurrently, "
             "overwriting registrations (each version has a unique marker node) race with Sends and the per-pipeline deliveries are checked for "
-            "linearizability (exactly one version, the new one after the overwrite returned) with porcupine. Same-instance re-registrations, options of the other kind, two policy options in one call and kind-changing node overwrites are part of the sequences.",
+            "linearizability (exactly one version, the new one after the overwrite returned) with porcupine. Same-instance re-registrations, options of the other kind, two policy options in one call, kind-changing node overwrites, Brokers built with policy options and Reopen calls (old pipelines keep their nodes) are part of the sequences.",
             "sync.Map.Range is emulated at per-visit granularity (any behaviour its contract allows).",
             "deterministic simulation: seeded scheduler over sync.Map range/store + porcupine", "4 C07"),
     "C11": ("exploration",
             "Sequential histories up to 200 steps over events (3 ids, flush), non-gateable, no-id, clock advances around the expiry boundary, FlushAll, "
             "Close, with composition / send / gateable-composite faults, checked step by step against a GateModel; concurrent senders (2-4 tasks, "
             "FlushAll in between) are checked for conservation (each accepted event in exactly one composition, same id, real-time order) and panics; "
-            "every history up to length 4/5 over a 9-step alphabet, with and without Broker, is executed as well; the Broker field is assigned / replaced / cleared on the live filter; the library's own gated.Payload (real ComposeFrom) is checked by conservation over the composites; senders go through the REAL Broker with the filter emitting through the same Broker while setters, getters and Reopen run (conservation at the sinks).",
+            "every history up to length 4/5 over a 9-step alphabet, with and without Broker, is executed as well; the Broker field is assigned / replaced / cleared on the live filter; the library's own gated.Payload (real ComposeFrom) is checked by conservation over the composites; senders go through the REAL Broker with the filter emitting through the same Broker while setters, getters and Reopen run and Send contexts are cancelled at arbitrary steps (conservation over what the filter accepted / emitted; a flush composite must reach the next node); Expiration may be "never".",
             "Without a Broker a group that is neither composed nor visibly dropped makes the model uncertain; such runs are not judged further (counted).",
             "deterministic simulation: seeded histories, controlled clock, fault injection at the Sender/ComposeFrom seams, model oracle", "4 C11"),
     "C12": ("exploration",
             "Every Broker operation is driven while nodes call Send on the same Broker from Process, Close or Reopen, with the real gated.Filter wired "
             "to the Broker (0-3 pending groups, expired or not) and 0-2 concurrent writers queueing on the lock. Mutexes are modelled (writer "
-            "preference included), so a self-deadlock is detected exactly, at the step it forms, with lock, owner and waiting site. Nodes also make removals, registrations, setters and getters from inside, and a user Gateable whose composite is Gateable and routes back to the filter is sent.",
+            "preference included), so a self-deadlock is detected exactly, at the step it forms, with lock, owner and waiting site. Nodes also make removals, registrations, setters and getters from inside, a user Gateable whose composite is Gateable and routes back to the filter is sent, and the formatter may be the cloudevents one with a Signer that Sends while Rotate runs.",
             "Bounded liveness: every call returns within the step budget.",
             "deterministic simulation: modelled RWMutex gives exact deadlock detection under seeded schedules", "4 C12"),
     "C17": ("exploration",
@@ -80,7 +80,7 @@ CLAIMED = {
             "Registry states reached by generated histories (several types, shared nodes, removed and overwritten pipelines); Broker.Reopen is called "
             "with no failing node and with each single node of a registered pipeline failing in turn (chosen from the tape); every node object bound "
             "into a registered pipeline must be reopened, a failure must be carried by the returned error. A second scenario issues 2-3 overlapping "
-            "Reopen calls: each call must itself reach every node (invocations are attributed to the calling task) and carry the failure; contexts are live, cancelled or expired; registered nodes may be NodeUnwrapper wrappers that count / fail their own Reopen, or by-value nodes of a non-comparable type.",
+            "Reopen calls: each call must itself reach every node (invocations are attributed to the calling task) and carry the failure; contexts are live, cancelled or expired; pipelines may be re-registered meanwhile; registered nodes may be NodeUnwrapper wrappers that count / fail their own Reopen, or by-value nodes of a non-comparable type.",
             "Iteration order over event types is a seeded choice (map range rewritten).",
             "deterministic simulation: seeded registry histories + single-node fault injection", "4 C20"),
     "C08": ("exploration",
@@ -88,14 +88,14 @@ CLAIMED = {
             "MaxFiles 0..3, TimestampOnlyOnRotate; every os call of the sink goes through a wrapper over the real file system that records each "
             "write(2) as ground truth. Oracle: each acknowledged event is exactly one whole write, no partial or stray writes, real-time order of "
             "acknowledgements equals file order, rotated names ascend in creation order, a missing file implies MaxFiles>0 and the remaining files are the newest, files renamed away keep "
-            "their content, every inode's content equals the recorded writes, an event without bytes for the sink's format is refused, the sink deletes nothing but its own <base>-<timestamp><ext> files (a sibling's file that the prune glob matches is present). The crash mode stops the scheduler at a tape-chosen step (process "
+            "their content, every inode's content equals the recorded writes, an event without bytes for the sink's format is refused, a second FileSink value on the same never-rotating file interleaves without overwriting, the sink deletes nothing but its own <base>-<timestamp><ext> files (a sibling's file that the prune glob matches is present). The crash mode stops the scheduler at a tape-chosen step (process "
             "kill: completed system calls persist) and evaluates the same oracle with in-flight calls allowed zero or one whole write; for one "
             "crash run in 40 the same schedule is replayed with the crash at EVERY scheduler step (fault enumeration for that schedule).",
             "Crash = process kill, not power loss (no fsync semantics).",
             "deterministic simulation: seeded scheduler + file-system seam with crash points + write-log oracle", "4 C08"),
     "C09": ("exploration",
             "Payloads are generated from the statement's shape grammar (class-tagged string/[]byte/[]string/[][]byte/wrapper-value fields behind "
-            "pointers, slices, maps incl. struct values, interface values, nested structs, Taggable maps and structs (also Taggable structs that own Taggables as fields, two structs down and as slice elements, with tagged fields declared after them; behind pointers; as map values), maps with pointer values and non-string keys, same-named struct types, untagged maps; []byte results are inspected up to their capacity; top-level "
+            "pointers, slices, maps incl. struct values, interface values, nested structs, Taggable maps and structs (also Taggable structs that own Taggables as fields, two structs down and as slice elements, with tagged fields declared after them; behind pointers; as map values), maps with pointer values and non-string keys, same-named and mutually recursive struct types, Taggable maps with []byte values and keys that need JSON-pointer escaping, untagged maps; []byte results are inspected up to their capacity; top-level "
             "pointer, value, slice, map, *string, []string) with a unique canary in every leaf; overrides over {public,sensitive,secret} x "
             "{none,redact,encrypt,hmac}; wrapper present / absent / keyless / failing for a content-addressed subset of plaintexts. A lock-step "
             "walk of input and output checks each protected leaf (redacted, decrypts under the wrapper in force, or equals an independently computed "
@@ -107,7 +107,7 @@ CLAIMED = {
             "The C09 payload space: an independent deep copy built from the same recorded draws is compared with the input after Process (also after "
             "failures); output shape, public and non-string values, lengths and keys are compared in lock-step; all-none overrides must return the very "
             "same event (also when the payload carries event info or a rotation request). Schedule part: the filter runs as a non-root node of one pipeline while an observer node of a second pipeline and the Send "
-            "caller compare the event they hold with the snapshot at six scheduler-chosen instants; 2-3 encrypt filters of as many pipelines work on ONE event under the race binary, where every race whose writer is the encrypt package is a modification of the shared original; a payload that is a sync.Locker records whether it was locked.",
+            "caller compare the event they hold with the snapshot at six scheduler-chosen instants; 2-3 encrypt filters of as many pipelines work on ONE event under the race binary, where every race whose writer is the encrypt package is a modification of the shared original; a payload that is a sync.Locker records whether it was locked; a value type with a user-registered copier must survive; one filter node may serve all pipelines.",
             "copystructure is trusted per step (its internals are not interleaved).",
             "deterministic simulation: seeded scheduler interleaving an observer pipeline with the filter + snapshot oracle", "4 C10"),
     "C13": ("exploration",
@@ -116,28 +116,28 @@ CLAIMED = {
             "writes) per a tape-drawn fault plan; events without the sink's format must be refused; an acknowledged event must be exactly one whole write and nothing else; special paths "
             "(/dev/null, stdout, stderr) are checked separately. ChannelSink: capacity 0-2, consumer early/late/never, timeout vs. context "
             "deadline 100us around each other, pre-cancelled contexts; exactly one of {delivered, nil} / {error, not delivered}, never longer than "
-            "min(timeout, deadline) of simulated time (exact: discrete-event clock).",
+            "min(timeout, deadline) of simulated time (exact: discrete-event clock). The std streams fail on plan; an event may be re-formatted under the same key while a sink delivers it (old or new value, never a mix).",
             "Timer ties (deadline == timeout) are avoided on purpose: their order is the Go runtime's.",
             "deterministic simulation: fault-injecting writer and disk seams, simulated clock, seeded select order", "4 C13"),
     "C14": ("exploration",
             "JSON-value generator (nested maps, slices, structs, control and invalid UTF-8 bytes, large ints, NaN/Inf, channels, funcs) against a "
             "round-trip oracle (one line, exactly three members, created_at/event_type/payload decode back, payload untouched, unencodable gives "
             "(nil, err) and nothing stored, predicate outcomes); the format table is exercised by 2-8 tasks and checked for last-writer-wins "
-            "linearizability with porcupine and for races with the race binary; two pipelines format one event concurrently; pre-occupied format slots must be replaced and a stored value must not change afterwards.",
+            "linearizability with porcupine and for races with the race binary; two pipelines format one event concurrently; pre-occupied format slots must be replaced and a stored value must not change afterwards; predicates return (true, err) and touch the format table.",
             "The formatter clauses are input generation; only the format-table and two-formatter clauses depend on the schedule.",
             "deterministic simulation: seeded scheduler + race detector + porcupine for the table; seeded generation for the formatters", "4 C14"),
     "C15": ("exploration",
             "Sequential histories of writes, Reopen, external rename+Reopen and pauses (1, 29, 30, 31, 100 ms around MaxDuration=30ms) against a "
             "FileSinkModel after every step: a write rotates iff bytes-since-open >= MaxBytes>0 or age > MaxDuration>0 (age bounded by the harness's "
             "clock reads before/after the call; straddling cases are counted, not judged), never with both unset; active-file name, rotated names with "
-            "strictly increasing timestamps in creation order, modes, directory creation, at most MaxFiles rotated files right after a rotation, no unexpected directory entries, modes incl. umask-sensitive ones, "
+            "strictly increasing timestamps in creation order, modes, directory creation, at most MaxFiles rotated files right after a rotation, no unexpected directory entries, modes incl. umask-sensitive ones, directory names with % signs, empty formatted entries, "
             "removals only inside the name space, decoy files survive (one of them matches the prune glob), BytesWritten matches; the directory is removed and a pre-existing active file with another mode is present in some histories.",
             "The fake clock starts at a 2026 epoch (19-digit UnixNano) so that lexicographic pruning order is the realistic one.",
             "deterministic simulation: fake clock with seeded ticks + disk seam + reference model", "4 C15"),
     "C16": ("exploration",
             "Byte strings incl. empty and non-UTF-8 canaries, salt/info on filter and event, event id present/absent; every encrypted value must "
             "decrypt under the wrapper in force (filter's or the per-event wrapper, derived twice to check determinism), every HMAC equals an "
-            "independent HKDF-SHA256/HMAC-SHA256 computation (per-event salt/info nil, empty or set; key ids distinct, equal or empty); Rotate() and rotation payloads between events; concurrently, senders and a rotator "
+            "independent HKDF-SHA256/HMAC-SHA256 computation (per-event salt/info nil, empty or set; key ids distinct, equal or empty; rotation payload types listed in IgnoreTypes; tagged []byte map entries); Rotate() and rotation payloads between events; concurrently, senders and a rotator "
             "task interleave at the filter's lock operations and each value must verify under exactly one key version that could be in force. Per-event options must reach every depth of the payload (map -> slice -> map -> struct).",
             "AEAD nonces come from crypto/rand and never enter a decision.",
             "deterministic simulation: seeded scheduler over the filter's lock points + independent crypto oracle", "4 C16"),
@@ -145,7 +145,7 @@ CLAIMED = {
             "Configurations (source nil/empty/valid, schema unset/empty/set, format unset/json/text/invalid, predicate outcomes) x payload kinds "
             "(plain, ID, Data, both, empty ID) with a harness signer that records its input and fails on plan, listed/unlisted types, Rotate between "
             "events; the stored document is parsed back and compared member by member; serialized must decode to the bytes given to the signer and "
-            "serialized_hmac to the current signer's result; a failed signature must forward and store nothing; a signer installed after construction and nil Data() are covered; 2-6 tasks share one FormatterFilter (ids unique; race binary with a cloudevents-frame filter).",
+            "serialized_hmac to the current signer's result; a failed signature must forward and store nothing; a signer installed after construction or by the signer itself, signatures with control characters, empty event types and nil Data() are covered; 2-6 tasks share one FormatterFilter (ids unique; race binary with a cloudevents-frame filter).",
             "Mostly input generation; the fault-dependent clause is the failing signer.",
             "deterministic simulation harness: seeded configuration generation + signer fault injection", "4 C18"),
     "C19": ("exploration",
